@@ -102,6 +102,14 @@ def location(cls, spelling, base):
         return (REMOTE + "/inc.xsd") if spelling != "encoded" else (REMOTE + "/in%63.xsd")
     full = os.path.join(base, d, "inc.xsd")
     rel = "inc.xsd" if cls == "inside" else f"../{d}/inc.xsd"
+    if spelling.startswith("climb"):        # through the sandbox directory and out of it (or back into it)
+        climb = os.path.join(base, "sand", "sub", "..", "inc.xsd") if cls == "inside" \
+            else os.path.join(base, "sand", "..", d, "inc.xsd")
+        if spelling == "climbabs":
+            return climb
+        if spelling == "climburl":
+            return "file://" + climb
+        return "file://" + climb.replace("..", "%2e%2e")
     if spelling == "relative":
         return rel
     if spelling == "dotted":
@@ -125,7 +133,9 @@ def one_load(rec, ver, allow, main, mech, loc, src, base, explicit):
     """One schema load under observation. -> description of the disagreement or None."""
     import xmlschema
     kwargs = {"allow": allow}
-    if allow == "sandbox" and explicit:
+    if main == "textremote":
+        kwargs["base_url"] = REMOTE + "/dir/"
+    elif allow == "sandbox" and explicit:
         kwargs["base_url"] = os.path.join(base, "sand")
     if mech == "mapper":
         kwargs["uri_mapper"] = lambda uri: loc if uri.endswith("virtual.xsd") else uri
@@ -221,10 +231,22 @@ def judge(job):
                 sp = "fileurl"      # a hint in a document supplied as text has nothing to be relative to
             if mech == "locations" and sp in ("dotted", "encoded"):
                 sp = "relative"
+            if ref["class"] == "remote" and sp.startswith("climb"):
+                return out, 0       # the climbing spellings are about the local file system
             loc = location(ref["class"], sp, base)
             src = os.path.join(base, "sand", "main.xsd")
             with open(src, "w") as f:
                 f.write(main_xsd(mech, loc))
+        elif main == "textremote":
+            # the main schema as text with a remote base URL: relative references are remote
+            if mech in ("hint", "mapper", "locations") or ref["spelling"].startswith("climb"):
+                return out, 0
+            if ref["class"] == "remote":
+                loc = "inc.xsd" if ref["spelling"] in ("relative", "dotted") else location("remote", "absolute", base)
+            else:
+                loc = location(ref["class"], "fileurl", base)
+            REMOTE_FILES[(REMOTE + "/dir/inc.xsd").lower()] = target_xsd(mech, ver)
+            src = main_xsd(mech, loc)
         else:
             # a remote main document: relative references stay remote, local targets need a file URL
             if ref["class"] == "remote":
@@ -266,8 +288,8 @@ def run(ctx: Ctx):
     ctx.evaluations = ctx.nontrivial = total
     ctx.exhaustive = True
     ctx.rule = ("allow mode (5) x main source class (inside, remote) x mechanism (include, import, redefine, "
-                "override, instance location hint followed during validation, include through a URI mapper, `locations` argument) x target class (inside, sibling-with-shared-prefix, outside, remote) x spelling "
-                "(relative, dotted, absolute, file URL, percent-encoded) as enumerated by TLC, both classes; "
+                "override, instance location hint followed during validation, include through a URI mapper, `locations` argument; also the main schema as text with a remote base URL) x target class (inside, sibling-with-shared-prefix, outside, remote) x spelling "
+                "(relative, dotted, absolute, file URL, percent-encoded, absolute path / file URL / percent-encoded file URL climbing through the sandbox directory with '..') as enumerated by TLC, both classes; "
                 "every fetch observed through audit events (open) and a stub opener (remote)")
     ctx.assumptions += ["a fetch that bypasses both builtins.open and urllib would not be observed",
                         "package-internal schema files are pre-loaded before a case starts and are a class "
